@@ -279,6 +279,8 @@ COMMENTS = ["# a comment", "#", "# setupRequired(nothing)", "#} else {", "# if (
 
 
 def render_table(rng, items, features):
+    """Returns the rendered lines of every item (a list of lists), layout chosen at random."""
+    parts = []
     lines = []
 
     def emit(s, comment_ok=True):
@@ -301,8 +303,10 @@ def render_table(rng, items, features):
         return word.upper() if r < 0.95 else word.capitalize()
 
     for it in items:
+        lines = []
         if it["k"] == "cmd":
             emit(render_cmd(rng, it["c"]))
+            parts.append(lines)
             continue
         for i, br in enumerate(it["branches"]):
             head = kw("if") + sp(rng) + "(" + sp(rng) + render_cond(rng, br["cond"]) + sp(rng) + ")" + sp(rng) + "{"
@@ -316,7 +320,12 @@ def render_table(rng, items, features):
             for c in it["els"]:
                 emit(render_cmd(rng, c))
         emit("}")
-    return "\n".join(lines) + rng.choice(["\n", "\n", ""])
+        parts.append(lines)
+    return parts
+
+
+def join_parts(parts, end="\n"):
+    return "\n".join(l for p in parts for l in p) + end
 
 
 def table_features(items):
@@ -443,6 +452,7 @@ def malform(rng, text):
 def gen_case(rng):
     r = rng.random()
     features = set()
+    parts = None
     if r < 0.12:
         text, items, style = gen_legacy(rng)
         features |= table_features(items) | {"legacy", "legacy_" + style}
@@ -450,19 +460,65 @@ def gen_case(rng):
     else:
         items = gen_table(rng)
         features |= table_features(items)
-        text = render_table(rng, items, features)
+        plines = render_table(rng, items, features)
+        text = join_parts(plines, rng.choice(["\n", "\n", ""]))
         kind = "table"
+        parts = []
+        for it, ls in zip(items, plines):
+            cs = [{"text": render_cond(rng, b["cond"]), "ast": b["cond"]} for b in it["branches"]] if it["k"] == "chain" else []
+            parts.append({"lines": ls, "item": it, "conds": cs})
     envs = gen_envs(rng, items)
     conds = []
-    if kind == "table":
-        for e in conds_of(items)[:6]:
-            ctext = render_cond(rng, e)
-            conds.append({"text": ctext, "expect": [denote_cond(e, v["flavor"], v["types"]) for v in envs]})
+    if parts:
+        for c in [c for p_ in parts for c in p_["conds"]][:6]:
+            conds.append({"text": c["text"], "expect": [denote_cond(c["ast"], v["flavor"], v["types"]) for v in envs]})
     expect = [denote_table(items, v["flavor"], v["types"]) for v in envs]
     if r >= 0.88:
         text = malform(rng, text)
-        kind, expect, features = "malformed", None, features | {"malformed"}
-    return {"kind": kind, "text": text, "envs": envs, "expect": expect, "conds": conds, "features": sorted(features)}
+        kind, expect, features, parts = "malformed", None, features | {"malformed"}, None
+    case = {"kind": kind, "text": text, "envs": envs, "expect": expect, "conds": conds, "features": sorted(features)}
+    if parts:
+        case["parts"] = parts
+    return case
+
+
+def sub_case(case, parts, envs):
+    """The case restricted to some of its items and environments (layout of the kept items unchanged)."""
+    items = [p_["item"] for p_ in parts]
+    conds = [{"text": c["text"], "expect": [denote_cond(c["ast"], v["flavor"], v["types"]) for v in envs]}
+             for p_ in parts for c in p_["conds"]][:6]
+    return {"kind": case["kind"], "text": join_parts([p_["lines"] for p_ in parts]), "envs": envs,
+            "expect": [denote_table(items, v["flavor"], v["types"]) for v in envs], "conds": conds,
+            "features": sorted(table_features(items) | (set(case["features"]) & {"trailing_comment", "keyword_case"})),
+            "parts": parts}
+
+
+def shrink(case, clause):
+    """Delta-debug the failing case over its items, then its environments, keeping a failure of the same clause."""
+    if not case.get("parts"):
+        return case
+
+    def fails(parts, envs):
+        if not parts:
+            return False
+        c = sub_case(case, parts, envs)
+        return any(cl == clause for cl, _k, _i, _d in oracle(c, run_impl(c)))
+    envs = case["envs"]
+    parts = case["parts"]
+    if not fails(parts, envs):
+        if _scratch is not None:
+            common.rmtree(_scratch)
+        return case                      # the failure needs the original end-of-file layout: keep as is
+    for v in envs:
+        if fails(parts, [v]):
+            envs = [v]
+            break
+    parts = common.ddmin(parts, lambda ps: fails(ps, envs), max_tests=60)
+    out = sub_case(case, parts, envs)
+    out["shrunk_from_items"] = len(case["parts"])
+    if _scratch is not None:
+        common.rmtree(_scratch)
+    return out
 
 
 # ---- implementation ----------------------------------------------------------------------------------
@@ -594,6 +650,8 @@ def classify(case, i, got, want):
         return "blocks_no_error"
     if [(a["cmd"], a["extra"]) for a in got] == [(a["cmd"], a["extra"]) for a in want]:
         return "args"
+    if [(a["cmd"], a["args"]) for a in got] == [(a["cmd"], a["args"]) for a in want]:
+        return "command_kind"           # append/prepend, required/optional
     return "blocks"
 
 
@@ -631,7 +689,10 @@ def corpus_cases():
 
 
 def public(case):
-    return {k: case[k] for k in ("kind", "text", "envs", "expect", "conds", "features")}
+    return {k: case[k] for k in ("kind", "text", "envs", "expect", "conds", "features", "parts", "shrunk_from_items") if k in case}
+
+
+MAX_SHRINKS = 6
 
 
 def evaluate(ctx, cases):
@@ -674,7 +735,22 @@ def evaluate(ctx, cases):
             ctx.disagree("actions", inp, io_, mo)
         elif mo_cmp["conds"] != io_["conds"]:
             ctx.disagree("condition_value", inp, io_, mo)
-        for clause, cls, i, detail in oracle(c, io_):
+        fails = list(oracle(c, io_))
+        if fails and c.get("parts") and ctx.histogram.get("shrunk", 0) < MAX_SHRINKS:
+            # report a reduced input: fewest items / one environment that still fail the same clause
+            ctx.hist("shrunk")
+            r = common.in_child(shrink, c, fails[0][0])
+            if r[0] == "ok" and r[1].get("shrunk_from_items"):
+                small = r[1]
+                r2 = common.in_child(run_impl_chunk, [small])
+                if r2[0] == "ok":
+                    s_io = r2[1][0]
+                    s_mo = model_out(small, ctx.lean.ask_many(model_requests(small)))
+                    for clause, cls, i, detail in oracle(small, s_io):
+                        ctx.hist("oracle_fail=" + clause)
+                        ctx.fail(clause, public(small), s_io, s_mo, note=detail + " [shrunk from %d items]" % small["shrunk_from_items"], finding=cls)
+                    continue
+        for clause, cls, i, detail in fails:
             ctx.hist("oracle_fail=" + clause)
             ctx.fail(clause, inp, io_, mo_cmp if not declined else mo, note=detail, finding=cls)
 
